@@ -13,6 +13,7 @@ CONSTANTS Lang,        \* "xpath" or "pattern"
           MaxTok,      \* longest derived string
           MutMax,      \* strings up to this length are mutated
           ClassNames, FieldNames, Digs, StrNames,  \* terminal alphabets (KeyNames from Syntax)
+          SplitNames,                              \* <<ab, a, b>>: the name ab read as the two names a b
           TestHeap, TestRoot                       \* a fixed tree on which accepted xpaths are evaluated
 
 VARIABLES toks, stack, phase
@@ -88,6 +89,10 @@ Mutate ==
        \/ \E i \in 1..(Len(toks) - 1) : toks' = Swap(toks, i)
        \/ \E i \in 1..Len(toks), t \in Alphabet : toks' = Repl(toks, i, t)
        \/ (Lang = "xpath" /\ Len(toks) > 2 /\ toks[1].k = "sl" /\ toks[2].k = "sl" /\ toks' = SubSeq(toks, 3, Len(toks)))
+       \* one word split in two: the texts differ only by white space between word characters
+       \/ \E i \in 1..Len(toks), sp \in SplitNames :
+             /\ toks[i].k = "nm" /\ toks[i].v = sp[1]
+             /\ toks' = SubSeq(toks, 1, i - 1) \o <<T("nm", sp[2]), T("nm", sp[3])>> \o SubSeq(toks, i + 1, Len(toks))
 
 Init == toks = <<>> /\ stack = <<Start>> /\ phase = "derive"
 Next == Derive \/ Finish \/ Mutate
